@@ -28,6 +28,7 @@ def checkLine (line : String) : List Fail :=
       | "tblbig" => checkTbl case impl
       | "ent" => checkEnt case impl
       | "fix" => checkFix case impl
+      | "misc" => checkMisc case impl
       | "sdt" => checkSdt case impl
       | "aml" => checkAml case impl
       | "amlalt" => checkAml case impl
